@@ -6,6 +6,7 @@ import (
 	"errors"
 	"fmt"
 	"io"
+	"time"
 
 	"go.sia.tech/core/consensus"
 	proto4 "go.sia.tech/core/rhp/v4"
@@ -52,6 +53,12 @@ type Tamper struct {
 	SigKey *types.PrivateKey
 	// Signature replaces the renter's revision signature.
 	Signature func(sig *types.Signature)
+	// AfterFirstResponse, if set, runs in multi-round exchanges right after
+	// the renter has read the host's first response and before it sends its
+	// second message, i.e. while the host handler is waiting for the renter
+	// (and holding whatever it holds). The harness uses it to run another
+	// RPC at exactly that point; it does not change any message.
+	AfterFirstResponse func()
 }
 
 func (t *Tamper) prices(p proto4.HostPrices) proto4.HostPrices {
@@ -72,6 +79,12 @@ func (t *Tamper) challenge(r *Renter, n uint64, hash func(uint64) types.Hash256)
 		}
 	}
 	return key.SignHash(hash(n))
+}
+
+func (t *Tamper) between() {
+	if t != nil && t.AfterFirstResponse != nil {
+		t.AfterFirstResponse()
+	}
 }
 
 func (t *Tamper) request(o proto4.Object) {
@@ -267,8 +280,19 @@ func (x *exch) finish(err error) {
 	if !(res.Aborted && x.script.Mode == ModeStall) {
 		x.conn.Close()
 	}
-	if !x.r.H.Client.WaitIdle(Watchdog) {
-		res.Infra = ErrWatchdog
+	// wait until the host has closed its end of THIS stream (its handler has
+	// returned and released what it held); other streams may still be open
+	// when exchanges are nested or run concurrently
+	select {
+	case <-x.conn.PeerDone():
+	default:
+		t := time.NewTimer(Watchdog)
+		select {
+		case <-x.conn.PeerDone():
+		case <-t.C:
+			res.Infra = ErrWatchdog
+		}
+		t.Stop()
 	}
 	res.HostBytes = x.conn.Peer().Written()
 	if res.Aborted && x.script.Mode == ModeStall {
@@ -321,6 +345,7 @@ func (r *Renter) Append(c Contract, prices proto4.HostPrices, roots []types.Hash
 			return err
 		}
 		out.GotResp = true
+		t.between()
 		if len(out.Resp.Accepted) != len(req.Sectors) {
 			return fmt.Errorf("renter: host answered %d accepted flags for %d sectors", len(out.Resp.Accepted), len(req.Sectors))
 		}
@@ -387,6 +412,7 @@ func (r *Renter) Free(c Contract, prices proto4.HostPrices, indices []uint64, s 
 			return err
 		}
 		out.GotResp = true
+		t.between()
 		numSectors := c.Revision.Filesize / proto4.SectorSize
 		out.ProofOK = safeVerify(func() bool {
 			return proto4.VerifyFreeSectorsProof(out.Resp.OldSubtreeHashes, out.Resp.OldLeafHashes, req.Indices, numSectors, c.Revision.FileMerkleRoot, out.Resp.NewMerkleRoot)
@@ -549,6 +575,7 @@ func (r *Renter) Replenish(c Contract, pools bool, keys []proto4.Account, target
 			return err
 		}
 		out.GotResp = true
+		t.between()
 		var total types.Currency
 		for _, d := range out.Resp.Deposits {
 			var o bool
